@@ -2,6 +2,7 @@ package nc
 
 import (
 	"fmt"
+	"go/token"
 	"go/types"
 	"strings"
 
@@ -452,7 +453,7 @@ func (r *Run) c06Remap(sums *Summaries) {
 	if flat := p.FuncOpt(PkgG, "Genome.duplicate__flat"); flat != nil {
 		// flat view: the three list helpers are inlined into duplicate (whether the tree has them or not)
 		dupNodes, dupGenes, dupCG = flat, flat, flat
-		res := c06ResultSites(p, flat)
+		res, _ := c06ResultSites(p, flat)
 		isTraits = func(t *Term, _ int) bool {
 			for _, rs := range res {
 				if rs.traits != nil && c06ThroughCells(t.V) == rs.traits {
@@ -803,17 +804,43 @@ func (r *Run) elementwiseAppend(fn *ssa.Function, sliceT *Term, srcField *types.
 	return true
 }
 
-// c06ResultSite: one place where the flat view of duplicate assembles the new genome.
+// c06ResultSite: one place where the flat view of duplicate assembles the new genome: a call of one of the genome
+// constructors, or a genome that duplicate allocates and initialises in place (c06GenomeLit, robust_c06.go).
 type c06ResultSite struct {
-	call                                   ssa.CallInstruction
-	id, traits, nodes, genes, cgs, nodeMap ssa.Value // feasible values at the call (nil when not unique)
+	val                                    ssa.Value       // the assembled genome
+	at                                     *ssa.BasicBlock // where it is assembled
+	pos                                    token.Pos
+	id, traits, nodes, genes, cgs, nodeMap ssa.Value // feasible values at the site (nil when not unique / not given)
+	cgsArg                                 ssa.Value // the module list handed over, as written (a nil constant when the field is left alone)
 	cgsNil                                 bool
 }
 
-// c06ResultSites finds the genome constructor calls of the flat view and resolves, with correlated-phi
-// narrowing at the call, which list values are handed over.
-func c06ResultSites(p *Prog, flat *ssa.Function) []c06ResultSite {
-	var out []c06ResultSite
+// c06ResultSites finds the places where the flat view assembles a genome and resolves, with correlated-phi
+// narrowing at the site, which list values are handed over. `unknown` lists genome allocations of the flat view
+// that are not recognised as an in-place assembly (the object is written elsewhere, escapes, is initialised on
+// several paths ...): their contents are not known to the rules.
+func c06ResultSites(p *Prog, flat *ssa.Function) (out []c06ResultSite, unknown []*ssa.Alloc) {
+	fill := func(rs *c06ResultSite, id, traits, nodes, genes, cgs, nodeMap ssa.Value) {
+		one := func(v ssa.Value) ssa.Value {
+			if v == nil {
+				return nil
+			}
+			if x := OnlyAt(v, rs.at); x != nil {
+				return stripPtr(x)
+			}
+			return nil
+		}
+		rs.id, rs.traits, rs.nodes, rs.genes, rs.cgsArg = id, one(traits), one(nodes), one(genes), cgs
+		alts := NarrowAt(cgs, rs.at)
+		if len(alts) == 1 {
+			if k, ok := alts[0].(*ssa.Const); ok && k.Value == nil {
+				rs.cgsNil = true
+			} else {
+				rs.cgs = stripPtr(alts[0])
+			}
+		}
+		rs.nodeMap = one(nodeMap)
+	}
 	for _, name := range []string{"newGenomeWithNodeIdMap", "newGenome", "NewGenome"} {
 		ctor := p.FuncOpt(PkgG, name)
 		if ctor == nil {
@@ -824,30 +851,28 @@ func c06ResultSites(p *Prog, flat *ssa.Function) []c06ResultSite {
 			if len(a) < 5 {
 				continue
 			}
-			rs := c06ResultSite{call: c}
-			at := c.Block()
-			one := func(v ssa.Value) ssa.Value {
-				if x := OnlyAt(v, at); x != nil {
-					return stripPtr(x)
-				}
-				return nil
-			}
-			rs.id, rs.traits, rs.nodes, rs.genes = a[0], one(a[1]), one(a[2]), one(a[3])
-			alts := NarrowAt(a[4], at)
-			if len(alts) == 1 {
-				if k, ok := alts[0].(*ssa.Const); ok && k.Value == nil {
-					rs.cgsNil = true
-				} else {
-					rs.cgs = stripPtr(alts[0])
-				}
-			}
+			rs := c06ResultSite{val: c.Value(), at: c.Block(), pos: c.Pos()}
+			var nodeMap ssa.Value
 			if len(a) > 5 {
-				rs.nodeMap = one(a[5])
+				nodeMap = a[5]
 			}
+			fill(&rs, a[0], a[1], a[2], a[3], a[4], nodeMap)
 			out = append(out, rs)
 		}
 	}
-	return out
+	lits, unknown := c06GenomeLits(p, flat)
+	gf := func(n string) *types.Var { return p.Field(PkgG, "Genome", n) }
+	for _, lit := range lits {
+		rs := c06ResultSite{val: lit.alloc, at: lit.alloc.Block(), pos: lit.alloc.Pos()}
+		cgs := lit.vals[gf("ControlGenes")]
+		if cgs == nil {
+			// the field keeps its zero value: a nil module list
+			cgs = ssa.NewConst(nil, gf("ControlGenes").Type())
+		}
+		fill(&rs, lit.vals[gf("Id")], lit.vals[gf("Traits")], lit.vals[gf("Nodes")], lit.vals[gf("Genes")], cgs, lit.vals[gf("nodeByIdMap")])
+		out = append(out, rs)
+	}
+	return out, unknown
 }
 
 // c06Elementwise is C06.2 on the flat view: whatever helpers the tree uses, the new genome is assembled from a
@@ -857,17 +882,37 @@ func (r *Run) c06Elementwise(sums *Summaries, dup, flat *ssa.Function) {
 	pos := p.Pos(dup.Pos())
 	tm := NewTermer(flat)
 	gf := func(n string) *types.Var { return p.Field(PkgG, "Genome", n) }
-	sites := c06ResultSites(p, flat)
+	sites, unknown := c06ResultSites(p, flat)
 	if len(sites) == 0 {
-		r.Bad("duplicate", pos, "duplicate does not assemble its result with the genome constructors (newGenomeWithNodeIdMap / newGenome); the element-wise rule cannot be applied")
+		r.Bad("duplicate", pos, "duplicate does not assemble its result with the genome constructors (newGenomeWithNodeIdMap / newGenome) or by initialising a genome it allocates; the element-wise rule cannot be applied")
 		return
+	}
+	// what duplicate returns is one of the genomes whose assembly is examined below
+	known := map[ssa.Value]bool{}
+	for _, rs := range sites {
+		if rs.val != nil {
+			known[rs.val] = true
+		}
+	}
+	for _, al := range unknown {
+		r.Bad("duplicate.result", p.Pos(al.Pos()), "duplicate allocates a genome that it does not initialise in one place before returning it (written on several paths, written twice, or handed elsewhere first): its contents are not known")
+	}
+	outside, rets := c06ReturnedOutside(flat, 0, known)
+	for i, v := range outside {
+		if al, isAl := v.(*ssa.Alloc); isAl && len(unknown) > 0 && containsAlloc(unknown, al) {
+			continue // reported above
+		}
+		r.Bad("duplicate.result", p.Pos(rets[i].Pos()), fmt.Sprintf("duplicate returns %s, which is not a genome assembled by a genome constructor or initialised in place from the duplicated lists", tm.Of(v)))
 	}
 	sawModules := false
 	for _, rs := range sites {
-		idT := tm.Of(rs.id)
-		r.Check(idT.Op == "param" && idT.Idx == 1, "duplicate.Id", pos, "Id <- the newId parameter", fmt.Sprintf("Id of the duplicate is %v, expected the newId parameter", idT))
+		var idT *Term
+		if rs.id != nil {
+			idT = tm.Of(rs.id)
+		}
+		r.Check(idT != nil && idT.Op == "param" && idT.Idx == 1, "duplicate.Id", pos, "Id <- the newId parameter", fmt.Sprintf("Id of the duplicate is %v, expected the newId parameter", idT))
 		if rs.traits == nil || rs.nodes == nil || rs.genes == nil {
-			r.Bad("duplicate.lists", p.Pos(rs.call.Pos()), "the trait, node or gene list handed to the genome constructor is not a single list value on this path")
+			r.Bad("duplicate.lists", p.Pos(rs.pos), "the trait, node or gene list handed to the new genome is missing or is not a single list value on this path")
 			continue
 		}
 		r.elementwise(sums, flat, tm.Of(rs.traits), gf("Traits"), p.Func(PkgT, "NewTraitCopy"), "duplicate.Traits")
@@ -887,7 +932,7 @@ func (r *Run) c06Elementwise(sums *Summaries, dup, flat *ssa.Function) {
 			r.elementwise(sums, flat, tm.Of(rs.cgs), gf("ControlGenes"), p.Func(PkgG, "NewMIMOGeneCopy"), "duplicateControlGenes")
 		default:
 			// one constructor call for both cases: every alternative is nil or an element-wise list
-			for _, alt := range NarrowAt(rs.call.Common().Args[4], rs.call.Block()) {
+			for _, alt := range NarrowAt(rs.cgsArg, rs.at) {
 				if k, ok := alt.(*ssa.Const); ok && k.Value == nil {
 					continue
 				}
@@ -914,14 +959,13 @@ func (r *Run) c06NilModulesGuard(flat *ssa.Function, sites []c06ResultSite) {
 	tm := NewTermer(flat)
 	cgField := p.Field(PkgG, "Genome", "ControlGenes")
 	for _, rs := range sites {
-		arg := rs.call.Common().Args[4]
+		arg := rs.cgsArg
 		// edges / blocks on which the argument is nil
-		type where struct{ b *ssa.BasicBlock }
 		var nilAt []*ssa.BasicBlock
 		if k, ok := arg.(*ssa.Const); ok && k.Value == nil {
-			nilAt = append(nilAt, rs.call.Block())
+			nilAt = append(nilAt, rs.at)
 		} else if ph, ok := arg.(*ssa.Phi); ok {
-			feas := c06FeasibleEdges(ph, Guards(rs.call.Block()))
+			feas := c06FeasibleEdges(ph, Guards(rs.at))
 			for i, e := range ph.Edges {
 				if k, ok := e.(*ssa.Const); ok && k.Value == nil && feas[i] {
 					nilAt = append(nilAt, ph.Block().Preds[i])
@@ -946,7 +990,7 @@ func (r *Run) c06NilModulesGuard(flat *ssa.Function, sites []c06ResultSite) {
 					ok = true
 				}
 			}
-			r.Check(ok, "duplicate.no-modules-branch", p.Pos(rs.call.Pos()), "the module-free duplicate is returned only under len(source.ControlGenes) == 0",
+			r.Check(ok, "duplicate.no-modules-branch", p.Pos(rs.pos), "the module-free duplicate is returned only under len(source.ControlGenes) == 0",
 				"a duplicate without modules is built on a path that is not guarded by len(source.ControlGenes) == 0: modules would be dropped")
 		}
 	}
